@@ -453,6 +453,13 @@ def main():
                 items.append(('data', 'defm', n, h, False, ((0, base),)))
                 if n % 2 == 0:
                     items.append(('data', 'defw', n, h, False, ((0, base),)))
+            if n <= 2:
+                # lower case output (hex digits and mnemonics) for every base
+                for base in BASES:
+                    items.append(('data', 'defb', n, h, True, ((0, base),)))
+                    items.append(('data', 'defm', n, h, True, ((0, base),)))
+                    if n % 2 == 0:
+                        items.append(('data', 'defw', n, h, True, ((0, base),)))
             if n >= 2:
                 items.append(('data', 'defb', n, h, False, ((1, 'c'), (n - 1, 'n'))))
                 items.append(('data', 'defb', n, h, True, ((n - 1, 'h'), (1, 'd'))))
@@ -462,6 +469,8 @@ def main():
                 continue      # a DEFS size is not a signed operand
             items.append(('data', 'defs', 3, h, False, ((0, base),)))
             items.append(('data', 'defs', 2, h, False, ((0, base), (0, 'h'))))
+            items.append(('data', 'defs', 2, h, True, ((0, 'n'), (0, base))))
+        items.append(('data', 'defs', 2, h, True, ((0, 'n'), (0, 'm'))))
     items += [('dir2', i, k) for i in range(len(TEMPLATES)) for k in SPELL]
     if args.only:
         items = [i for i in items if args.only in harness.item_name(i)]
